@@ -17,7 +17,11 @@ pub fn cmd_lex(cmd: &Value) -> Value {
 	let toks: Vec<Value> = jrsonnet_lexer::Lexer::new(src)
 		.map(|l| json!({"k": format!("{:?}", l.kind), "s": l.range.0, "e": l.range.1}))
 		.collect();
-	json!({"k":"lexed","len":src.len(),"toks":toks})
+	let mut out = json!({"k":"lexed","len":src.len(),"toks":toks});
+	if cmd["tree"].as_bool().unwrap_or(false) {
+		out["tree"] = crate::ast::parse_rowan(src);
+	}
+	out
 }
 
 // ---------------------------------------------------------------- formatter (C19, C20)
